@@ -855,7 +855,12 @@ pub(crate) fn parse_formatted_number(
     // check if it is a currency in currencies
     for currency in currencies {
         if let Some(p) = value.strip_prefix(&format!("-{currency}")) {
-            let (f, options) = parse_number(p.trim(), decimal_separator, group_separator)?;
+            let p = p.trim();
+            // the sign is already in front of the currency: "-$-5" is not a number
+            if p.starts_with(['+', '-']) {
+                return Err("Cannot parse number".to_string());
+            }
+            let (f, options) = parse_number(p, decimal_separator, group_separator)?;
             if options.is_scientific {
                 return Ok((-f, Some(scientific_format.to_string())));
             }
